@@ -421,6 +421,7 @@ PROPERTY_META = {
                 "started handle rejected) are postconditions. CBMC's bounds, pointer, overflow, shift, division and leak checks are on "
                 "in each of these harnesses with fully symbolic parameters.",
         "note": OS_NOTE + "reproc_poll/drain/run are covered under C08/C09/C16. Redirect types outside the enumeration are not covered for reproc_start.",
+        "extra_assumptions": ["path_is_relative_any (and path_prepend_cwd): strlen / strchr / memcpy are executable contracts written from ISO C 7.24 over ghost facts about the string (length, first byte, index of the first '/' at or after 1) instead of byte loops; the byte-level harness path_is_relative cross-checks them on short strings"],
         "design_ref": "§3 C14"},
     "C15": {"claimed": True, "level": "proof",
         "text": "reproc_destroy enforced with reproc_stop and everything below inlined: on a running handle the stored stop policy is "
@@ -445,6 +446,7 @@ PROPERTY_META = {
                 "string sizes), path_is_relative at byte level (string length; decided for ANY length by the loop-free harness "
                 "path_is_relative_any, strlen/strchr assumed per ISO C over ghost string facts), path_prepend_cwd (number of buffer growth steps; path length "
                 "is unbounded). execvp's PATH search is the kernel/libc's. Windows CreateProcessW path not covered.",
+        "extra_assumptions": ["path_is_relative_any (and path_prepend_cwd): strlen / strchr / memcpy are executable contracts written from ISO C 7.24 over ghost facts about the string (length, first byte, index of the first '/' at or after 1) instead of byte loops; the byte-level harness path_is_relative cross-checks them on short strings"],
         "design_ref": "§3 C03", "not_decided": ["execvp PATH search", "Windows process_start"]},
     "C08": {"claimed": True, "level": "proof",
         "text": "expiry, now, reproc_wait (timeout returned only after the full timeout with the exit pipe not ready; until-deadline "
